@@ -1134,7 +1134,7 @@ class Interp:
 
     def iter_access(self, seqv, node):
         if isinstance(seqv, OpaqueSeq):
-            return z3.Length(seqv.seq), lambda i: Opaque(seqv.kind, seqv.seq[i])
+            return z3.Length(seqv.seq), lambda i: seqv.elem(seqv.seq[i])
         if S.is_record(seqv) and S.record_name(seqv.sort()) == 'AbsStr':
             # a string known only by its length and last character
             f = self.w.uf('absstr_char', seqv.sort(), z3.IntSort(), z3.IntSort())
@@ -1927,7 +1927,7 @@ class Interp:
             return z3.Select(obj.arr, i)
         if isinstance(obj, OpaqueSeq):
             i = self.norm_index(idx, z3.Length(obj.seq), n)
-            return Opaque(obj.kind, obj.seq[i])
+            return obj.elem(obj.seq[i])
         if S.is_record(obj) and S.record_name(obj.sort()) == 'AbsStr':
             ln = S.rec_get(obj, 'n')
             i = self.norm_index(idx, ln, n)
@@ -2648,8 +2648,13 @@ class PyRange:
 
 @dataclass
 class OpaqueSeq:
-    kind: str
+    kind: str  # kind of the opaque elements, or 'func:<generic contract>' for a sequence of callables
     seq: Any  # z3 Seq(Int) of idents
+
+    def elem(self, ident):
+        if self.kind.startswith('func:'):
+            return FuncVal(self.kind.split(':', 1)[1], ident)
+        return Opaque(self.kind, ident)
 
 
 @dataclass
